@@ -1076,6 +1076,36 @@ pub fn generate(run_seed: u64, thorough: bool) -> LifeDesc {
     let n_setup = 3 + r.below(if thorough { 10 } else { 7 });
     // always start with a runtime
     setup.push(gen_op(&mut r, &mut s, &[1, 0, 0, 0, 0, 0, 0, 0, 0, 0, 0, 0, 0]).unwrap());
+    // one history in six starts with two clones of that runtime that diverge: each gets its own
+    // additions (often under the same names), then scripts are compiled from both
+    if r.chance(1, 6) {
+        let src = s.rts.iter().position(|x| x.is_some()).unwrap();
+        let dst = (src + 1) % N_RT;
+        s.rts[dst] = s.rts[src];
+        setup.push(LifeOp::CloneRuntime { src, dst });
+        for slot in [src, dst] {
+            for _ in 0..1 + r.below(2) {
+                s.next_aid += 1;
+                if r.chance(2, 3) {
+                    setup.push(LifeOp::AddFunction { r: slot, aid: s.next_aid });
+                } else {
+                    setup.push(LifeOp::AddConstant { r: slot, aid: s.next_aid });
+                }
+            }
+        }
+        let kv = 1 + r.below(6);
+        for (i, slot) in [src, dst].into_iter().enumerate() {
+            let m = s.next_m;
+            s.next_m += 1;
+            s.pks[i] = Some(m);
+            // the same version (so the same text when the additions have the same names) or another one
+            let k = if r.chance(1, 2) { kv } else { 1 + r.below(6) };
+            setup.push(LifeOp::Compile { r: slot, p: i, m, k });
+            s.hds[i] = Some(m);
+            setup.push(LifeOp::GetHandle { p: i, h: i, which: 0 });
+            setup.push(LifeOp::Call { h: i, x: r.below(1000) });
+        }
+    }
     for _ in 0..n_setup {
         if let Some(op) = gen_op(&mut r, &mut s, &w_setup) {
             setup.push(op);
